@@ -89,19 +89,7 @@ def main(argv):
         api._FAM.update(fam or {})
         api._REACH = mode == 'reach'
         fn = c.fn
-        if excl:
-            # add `pre: not kf_x(args)` lines: any *other* violation is still found
-            params = list(inspect.signature(fn).parameters)
-            doc = fn.__doc__ or ''
-            extra = ''.join('\n    pre: not %s(%s)' % (k, ', '.join(params)) for k in excl)
-            idx = doc.find('post:')
-            doc = doc[:idx] + extra.strip() + '\n    ' + doc[idx:]
-            fn2 = types.FunctionType(fn.__code__, fn.__globals__, fn.__name__, fn.__defaults__, fn.__closure__)
-            fn2.__annotations__ = dict(fn.__annotations__)
-            fn2.__doc__ = doc
-            fn2.__module__ = fn.__module__
-            fn2.__qualname__ = fn.__qualname__
-            fn = fn2
+        api._EXCL[:] = list(excl or [])
         opts = DEFAULT_OPTIONS.overlay(AnalysisOptionSet(
             analysis_kind=[AnalysisKind.PEP316], per_condition_timeout=float(timeout),
             report_all=True, stats=collections.Counter()))
